@@ -129,10 +129,12 @@ def validation(ctx):
            "self.circuit.append: parameters may depend on deleted subsystems", role="dominate:test-deps",
            line=f.node.lineno)
     # the command stores the validated register
-    cmd = [n for n in walk_no_nested(app[0]) if isinstance(n, ast.Call) and dotted(n.func) == "Command"]
+    stored = resolve_local(f.node, app[0].args[0], at=app_node) if app[0].args else app[0]
+    cmd = [n for n in ast.walk(stored) if isinstance(n, ast.Call) and dotted(n.func) == "Command"]
     ok = False
     if cmd and len(cmd[0].args) >= 2:
-        d = derives(f.node, cmd[0].args[1], app_node)
+        cids = cfg.node_of_expr(cmd[0])
+        d = derives(f.node, cmd[0].args[1], cids[0] if cids else app_node)
         ok = d.has_call("self._test_regrefs")
     ctx.ob(rule, f.site, ok, "" if ok else "the Command is not built from the register list returned by "
            "_test_regrefs (integers are not converted, validation result dropped)", role="validated-reg",
